@@ -640,8 +640,35 @@ func genExtHeaders(c *Ctx) {
 		c.encDecP("p.RoutingHeader", tRt(6, hel, 2, 1, tBuf(protoSeqBytes(n, 0x31))))
 	}
 	// routing headers whose data fills 256 bytes and more exactly (type-0 / segment routing with 16+ addresses)
-	for _, hel := range []int{31, 32, 33, 62, 63, 64, 100, 254, 255} {
-		c.encDecP("p.RoutingHeader", tRt(6, hel, 0, hel/2, tBuf(protoSeqBytes(8*(hel+1)-4, 0x11))))
+	// (self-consistent values: HEL matches the data, so the children-intact check applies to them)
+	for _, hel := range []int{0, 2, 30, 31, 32, 33, 62, 63, 64, 100, 254, 255} {
+		rt := tRt(17, hel, 0, hel/2, tBuf(protoSeqBytes(8*(hel+1)-4, 0x11)))
+		c.encDecP("p.RoutingHeader", rt)
+		c.run("embed", rt)
+		q := baseIP6()
+		q.nh, q.rt, q.length = 43, rt, 8*(hel+1)+8
+		c.run("enc", q.term())
+		c.run("embed", q.term())
+		// hop-by-hop header of the same size: one PadN option per 256 bytes, then Pad1 bytes
+		var opts []string
+		rem := 8*(hel+1) - 2
+		for rem >= 2 {
+			l := rem - 2
+			if l > 255 {
+				l = 255
+			}
+			opts = append(opts, tOpt(1, l, protoSeqBytes(l, 0x51)))
+			rem -= 2 + l
+		}
+		for ; rem > 0; rem-- {
+			opts = append(opts, tOpt(0, 0, nil))
+		}
+		hb := tHbh(17, hel, opts)
+		c.run("enc", hb)
+		c.run("embed", hb)
+		q = baseIP6()
+		q.nh, q.hbh, q.length = 0, hb, 8*(hel+1)+8
+		c.run("embed", q.term())
 	}
 	c.run("enc", tRt(6, 0, 0, 0, "~"))
 	c.run("enc", tRt(6, 255, 0, 0, tBuf(nil)))
